@@ -440,6 +440,7 @@ def r5(ctx):
 
 
 def r7(ctx):
+    ctx.mark('chain-prefix', 'C08.R7')
     ctx.rule('C08.R7', 'a chained definition is stored under the ID prefix that is common to ALL its parts: in Message::create the '
              'length the ID is cut to is reduced inside the loop over the parts, at a mismatch between the current part and '
              'the first one; a prefix computed from some parts only hides the other parts from the lookup', minimum=1)
